@@ -95,3 +95,18 @@ M("C02", "gcp_wld2pix_no_inverse", "odc/geo/gcp.py", "        x, y = self._mappi
 M("C02", "resolution_swapped_rot", "odc/geo/math.py", "    _, _, A_ = decompose_rws(A)\n    rx, _, _, _, ry, *_ = A_\n    return resxy_(rx, ry)", "    _, _, A_ = decompose_rws(A)\n    rx, _, _, _, ry, *_ = A_\n    return resxy_(ry, rx)", "rotated resolution swapped")
 M("C02", "translate_pix_world_side", "odc/geo/geobox.py", "        return self * Affine.translation(tx, ty)", "        return Affine.translation(tx, ty) * self", "translate_pix in world units")
 M("C02", "center_pixel_ceil", "odc/geo/geobox.py", "        return self[self.shape.map(lambda x: x // 2).yx]\n\n    @property\n    def compat", "        return self[self.shape.map(lambda x: (x - 1) // 2).yx]\n\n    @property\n    def compat", "centre pixel off by one for even sizes")
+
+# ----------------------------------------------------------------------------- C08
+M("C08", "snap_edge_floor_ceil_swapped", "odc/geo/math.py", "    _x0 = floor(maybe_int(x0 / res, tol))\n    _x1 = ceil(maybe_int(x1 / res, tol))", "    _x0 = ceil(maybe_int(x0 / res, tol))\n    _x1 = floor(maybe_int(x1 / res, tol))", "floor/ceil swapped in _snap_edge_pos")
+M("C08", "neg_res_low_edge", "odc/geo/math.py", "    tx = _tx + nx * (-res)\n", "    tx = _tx\n", "negative resolution returns the low edge")
+M("C08", "anchor_wrong_sign", "odc/geo/math.py", "    return _tx + off, nx", "    return _tx - off, nx", "anchor offset applied with the wrong sign")
+M("C08", "no_min_one_pixel", "odc/geo/math.py", "    nx = max(1, _x1 - _x0)\n", "    nx = _x1 - _x0\n", "minimum of one pixel removed")
+M("C08", "tol_ignored", "odc/geo/math.py", "    _x0 = floor(maybe_int(x0 / res, tol))\n    _x1 = ceil(maybe_int(x1 / res, tol))", "    _x0 = floor(x0 / res)\n    _x1 = ceil(x1 / res)", "tolerance ignored when snapping edges")
+M("C08", "y_uses_x_anchor", "odc/geo/geobox.py", "                offy, ny = snap_grid(bbox.bottom, bbox.top, ry, _snap.y, tol=tol)\n\n            affine", "                offy, ny = snap_grid(bbox.bottom, bbox.top, ry, _snap.x, tol=tol)\n\n            affine", "y axis snapped with the x anchor")
+M("C08", "tight_still_snaps", "odc/geo/geobox.py", "        if tight:\n            anchor = AnchorEnum.FLOATING\n", "        if tight:\n            anchor = AnchorEnum.EDGE\n", "tight=True still snaps")
+M("C08", "center_anchor_is_edge", "odc/geo/geobox.py", "        elif anchor == AnchorEnum.CENTER:\n            _snap = xy_(0.5, 0.5)", "        elif anchor == AnchorEnum.CENTER:\n            _snap = xy_(0.0, 0.0)", "centre anchor snaps edges")
+M("C08", "geopolygon_no_reproject", "odc/geo/geobox.py", "        else:\n            geopolygon = geopolygon.to_crs(crs)\n", "        else:\n            geopolygon = geopolygon.assign_crs(crs)\n", "from_geopolygon re-labels instead of reprojecting")
+M("C08", "shape_branch_span_y_x", "odc/geo/geobox.py", "        ry = -bbox.span_y / ny\n", "        ry = -bbox.span_x / ny\n", "shape-driven y pixel size from x span")
+M("C08", "int_shape_wrong_side", "odc/geo/geobox.py", "            if bbox.aspect > 1:\n                resolution = bbox.span_x / shape", "            if bbox.aspect < 1:\n                resolution = bbox.span_x / shape", "int shape applied to the shorter side")
+M("C08", "floating_ceil_no_tol", "odc/geo/math.py", "            nx = ceil(maybe_int((x1 - x0) / res, tol))\n            return x0, max(1, nx)", "            nx = ceil((x1 - x0) / res) + 1\n            return x0, max(1, nx)", "floating grid one pixel too large")
+M("C08", "shape_unsnapped_bottom", "odc/geo/geobox.py", "            offx, offy = bbox.left, bbox.top\n", "            offx, offy = bbox.left, bbox.bottom\n", "unsnapped shape-driven box anchored at the bottom")
